@@ -69,7 +69,9 @@ class GenericValue(Snapshot):
                 old_value.value = value
                 return
 
-            assert type(old_value) is type(value)
+            # the stored value was rebuilt by the adapters (map), a subclass
+            # of list/dict is stored as plain list/dict
+            assert isinstance(value, type(old_value))
 
             adapter = self.get_adapter(old_value)
             if adapter is not None and hasattr(adapter, "items"):
